@@ -343,7 +343,8 @@ def rescale(value, unit):
     try:
         return value.rescale(unit)
     except AttributeError:
-        if unit == 1:
+        # note: ``metre == 1`` is True in quantities (magnitudes are compared)
+        if is_unitless(unit) and to_unitless(unit) == 1:
             return value
         else:
             raise
